@@ -23,10 +23,10 @@ import (
 )
 
 // block kinds
-const kinds = "EPTKO"
+const kinds = "EPTKON"
 
 // certificate shapes
-var tipShapes = []string{"valid", "nil", "empty", "under-quorum", "forged", "wrong-hash", "wrong-round"}
+var tipShapes = []string{"valid", "nil", "empty", "under-quorum", "forged", "wrong-hash", "wrong-round", "signed-by-N1+V1", "signed-by-P+V1"}
 
 type base struct {
 	opts replica.Opts
@@ -58,6 +58,10 @@ func mkCert(blk *types.Block, parent common.Hash, shape string) *types.BlockCert
 		return votes([]int{world.X1, world.X2, world.Z}, blk.Hash(), blk.Height())
 	case "wrong-hash":
 		return votes([]int{world.V1, world.V2}, common.Hash{9, 9}, blk.Height())
+	case "signed-by-N1+V1": // N1 is validated but offline at the base: a validator only where an "online N1" switch was applied
+		return votes([]int{world.N1, world.V1}, blk.Hash(), blk.Height())
+	case "signed-by-P+V1": // P is online at the base: a validator unless an "offline P" switch was applied
+		return votes([]int{world.P, world.V1}, blk.Hash(), blk.Height())
 	case "wrong-round":
 		return votes([]int{world.V1, world.V2}, blk.Hash(), blk.Height()+1)
 	}
@@ -79,6 +83,8 @@ func build(r *replica.Replica, kind byte, now int64) *types.Block {
 		txs = append(txs, b.Tx(world.Spec{From: world.D1, Type: types.KillTx}))
 	case 'O':
 		txs = append(txs, b.Tx(world.Spec{From: world.P, Type: types.OnlineStatusTx, Payload: world.Online(false)}))
+	case 'N':
+		txs = append(txs, b.Tx(world.Spec{From: world.N1, Type: types.OnlineStatusTx, Payload: world.Online(true)}))
 	}
 	world.Submit(r, txs)
 	return r.Propose(now)
@@ -217,6 +223,7 @@ func runCase(bs base, cd caseDesc, out *shard.Out) {
 			fnow = bs.now - 100 + int64(i)*23
 		}
 		parent := R.Chain.Head.Hash()
+		forkTipParentOnline = map[int]bool{world.N1: R.App.ValidatorsCache.IsOnlineIdentity(world.A(world.N1)), world.P: R.App.ValidatorsCache.IsOnlineIdentity(world.A(world.P))}
 		blk := build(R, cd.Fork[i], fnow)
 		if err := R.Add(blk); err != nil {
 			out.Outcome("skip fork block: " + cls(err))
@@ -288,6 +295,15 @@ func runCase(bs base, cd caseDesc, out *shard.Out) {
 		_ = i
 	}
 	tipBad := cd.Tip != "valid"
+	// the two membership-dependent shapes are judged by the validator view of the fork itself
+	// (the builder replica R followed the fork): every signer must be an online validator there
+	if cd.Tip == "signed-by-N1+V1" || cd.Tip == "signed-by-P+V1" {
+		signer := world.N1
+		if cd.Tip == "signed-by-P+V1" {
+			signer = world.P
+		}
+		tipBad = !forkTipParentOnline[signer]
+	}
 	if accepted {
 		if tipBad {
 			fail("accepted-bad-tip-cert:"+cd.Tip, fmt.Sprintf("fork accepted although its tip certificate is %s", cd.Tip))
@@ -427,6 +443,9 @@ func runCase(bs base, cd caseDesc, out *shard.Out) {
 	out.Sample(map[string]interface{}{"case": cd, "abandoned_blocks": len(abandoned), "reverted_txs": len(rv)})
 }
 
+// validator membership (as of the fork tip's parent, on the fork) of the signers of the membership-dependent shapes
+var forkTipParentOnline map[int]bool
+
 func cls(e error) string {
 	if e == nil {
 		return "no-applicable-fork"
@@ -471,6 +490,17 @@ func cases(thorough bool) []caseDesc {
 		}
 	}
 	if !thorough {
+		// quick tier: own branches that change the validator set (so that a certificate check
+		// against the wrong validator view becomes visible)
+		for depth := 0; depth <= 1; depth++ {
+			for _, own := range []string{"N", "NE", "NP", "EN", "O", "OE", "OP", "EO"} {
+				for _, fork := range []string{"E", "P", "EE", "PP", "EP", "PE"} {
+					for _, tip := range []string{"valid", "signed-by-N1+V1", "signed-by-P+V1"} {
+						out = append(out, caseDesc{depth, own, fork, tip, "where-required", "none"})
+					}
+				}
+			}
+		}
 		// quick tier: a slice of the length-3 forks (E/P kinds only) so that gaps are offered too
 		for depth := 0; depth <= 1; depth++ {
 			for _, own := range []string{"", "E", "P", "EE", "EP", "PE", "PP"} {
